@@ -203,9 +203,13 @@ Definition eres_is_ok (r : eres) : bool := match r with ROk => true | _ => false
 Definition eres_is_shutdown (r : eres) : bool := match r with RShutdown => true | _ => false end.
 
 (* obs_report_sender.go endOp + toNumItems; no instruments for profiles *)
+(* obs_report_sender.go toNumItems (hand transcription; Translated.v proves it equal to the definition
+   translator T1 generates from the current source) *)
+Definition to_num_items (n : Z) (err : bool) : Z * Z := if err then (0, n) else (n, 0).
+
 Definition obs_end_op (recording : bool) (s : signal) (items : Z) (r : eres) : ledger :=
-  let sent := if eres_is_ok r then items else 0 in
-  let failed := if eres_is_ok r then 0 else items in
+  let sent := fst (to_num_items items (negb (eres_is_ok r))) in
+  let failed := snd (to_num_items items (negb (eres_is_ok r))) in
   match s with
   | Profiles => []
   | _ => [(ExpSent s, sent); (ExpFailed s, failed)]
